@@ -8,11 +8,10 @@ import re
 import shlex
 import subprocess
 
-from sfv.framework import Ctx, Property
+from sfv.framework import Ctx, Inconclusive, Property
 from sfv.rt import cwldiff as C
 from sfv.rt import cwlgen_tool as G
 from sfv.rt.hexs import hx
-from sfv.rt.par import pmap
 from sfv.translate import cwlcmdtpl
 
 PATH_RE = re.compile(r"/[^ ,:=]*/(in_[A-Za-z0-9_]+\.txt|stdin_src\.txt)")
@@ -143,9 +142,8 @@ def compare_tool(ctx: Ctx, desc: dict, res: dict, model_out: str | None, corpus:
     ctx.count(f"outcome:{o1}/{o2}")
     d1 = d2 = None
     what = []
-    if "timeout" in (o1, o2):
-        ctx.fail("hang:" + ("streamflow" if o1 == "timeout" else "cwltool"), f"runner did not finish ({o1}/{o2})", case)
-        return
+    if "timeout" in (o1, o2):   # cannot happen: run_cases_confirmed re-runs such cases alone or ends the check inconclusive
+        raise Inconclusive(f"runner did not finish ({o1}/{o2})")
     if o1 != o2:
         what.append(f"StreamFlow {o1}, cwltool {o2}; sf stderr: {sf['stderr'][-300:]}")
     elif o1 == "success":
@@ -194,7 +192,7 @@ class C30(Property):
     drivers = ["Drivers/C30.lean"]
     translators = [cwlcmdtpl.generate]
     quick_budget_s = 1500
-    thorough_budget_s = 7200
+    thorough_budget_s = 2400
     min_nontrivial = 20
     rule = ("(i) quoting: random words over an alphabet of shell metacharacters, quotes, whitespace, unicode and the empty string: Lean "
             "shlexQuote vs Python shlex.quote, Lean parseCmd vs shlex.split and vs the original words; (ii) environment: random values through the real "
@@ -342,19 +340,22 @@ class C30(Property):
                  for k, d in enumerate(descs)]
         ncorpus = sum(1 for d in descs if d["corpus"])
         done = 0
+        budget = self.quick_budget_s if ctx.tier == "quick" else self.thorough_budget_s
         for start in range(0, len(cases), 16):
-            if start >= ncorpus and ctx.time_left() < 240:
-                ctx.notes.append(f"budget: {len(cases) - start} random tools not run")
-                if done < ncorpus + 6:
+            # adaptive plan: no new tools once 70 % of the budget is used (the corpus always runs)
+            if start >= ncorpus and ctx.time_left() < 0.3 * budget:
+                ctx.notes.append(f"adaptive plan: {len(cases) - start} of {len(cases) - ncorpus} random tools not run (70% of the budget used)")
+                if done < ncorpus + 4:
                     ctx.extra["incomplete"] = True
                 break
-            for case, status, res in pmap(C.run_case, cases[start:start + 16], timeout=2400, workers=8):
-                d = descs[case["id"]]
-                done += 1
-                if status != "ok":
-                    ctx.fail("hang:harness", f"{d['name']}: {status}: {str(res)[:300]}", {"op": "tool", "name": d["name"]})
-                    continue
-                compare_tool(ctx, d, res, outs.get(case["id"]), d["corpus"])
+            try:
+                for case, res in C.run_cases_confirmed(cases[start:start + 16], time_left=ctx.time_left):
+                    d = descs[case["id"]]
+                    done += 1
+                    compare_tool(ctx, d, res, outs.get(case["id"]), d["corpus"])
+            except C.Unconfirmed as e:
+                raise Inconclusive(str(e)) from e
+        ctx.extra["tools_planned"] = len(cases)
         ctx.extra["tools_run"] = done
 
     def replay(self, ctx: Ctx, data) -> None:
